@@ -13,6 +13,8 @@ both returning a string with: every return value, the final value of every captu
 hash of the trace (arguments of every activation and intermediate reads, in execution order).
 
 Shape descriptor line (also the Lean driver's input): `<caps> <args> <ret> <call>`, e.g. `c0:m,c1:s a0,a1 ret:i64 ntc`.
+A case = descriptor + ` body=<t> seed=<n>` + optional ` name=<recursion name>` ` nest=<name of a nested rec_lambda!>`
+` live2=<name of a second live closure>` ` env=hostile` (name-resolution / hygiene instances, see `hygiene_instances`).
 
 CLI (replay of one shape outside ./check):
   python3 tools/c20_gen.py --replay 'c0:m,c1:s a0,a1 ret:i64 ntc body=0 seed=1' [--repo /repo] [--keep]
@@ -33,11 +35,28 @@ TEMPLATE_NAMES = ["arith-i64", "vec-memo", "mixed-types", "ref-args-effects"]
 # shapes
 # ------------------------------------------------------------------------------------------------
 
-class Shape:
-    __slots__ = ("caps", "nargs", "ret", "tc", "sid")
+DEFAULT_NAME = "go"
 
-    def __init__(self, caps, nargs, ret, tc, sid=0):
+
+class Shape:
+    """nm    = the identifier given to rec_lambda! as the recursion's name (default `go`);
+       nest  = None, or the name of a second rec_lambda! built and used INSIDE the body (nested);
+       live2 = None, or the name of a second rec_lambda! closure alive next to the first one and used interleaved;
+       hyg   = True for the name-resolution (hygiene) instances: the body gets a prologue using free functions, prelude
+               names, a type alias, a module, a const, a static and a tuple struct, and (with a return type, templates
+               0 and 3) a recursive call nested inside an argument expression of another recursive call."""
+    __slots__ = ("caps", "nargs", "ret", "tc", "sid", "nm", "nest", "live2", "hyg", "env")
+
+    def __init__(self, caps, nargs, ret, tc, sid=0, nm=DEFAULT_NAME, nest=None, live2=None, hyg=None, env=None):
         self.caps, self.nargs, self.ret, self.tc, self.sid = tuple(caps), nargs, ret, tc, sid
+        self.nm, self.nest, self.live2 = nm, nest, live2
+        self.hyg = bool(hyg) if hyg is not None else (nm != DEFAULT_NAME or nest is not None or live2 is not None)
+        # env = "hostile": the macro is invoked by its absolute path (`::rlib_lambda::rec_lambda!`) in a scope where the names of
+        # the prelude / of std / of the crate's own macros are shadowed by unrelated definitions (HOSTILE_ITEMS); body template 0 only
+        self.env = env
+
+    def with_sid(self, sid):
+        return Shape(self.caps, self.nargs, self.ret, self.tc, sid, self.nm, self.nest, self.live2, self.hyg, self.env)
 
     def shared(self):
         return [i for i, m in enumerate(self.caps) if not m]
@@ -55,7 +74,16 @@ class Shape:
         return f"{caps} {args} {ret} {'tc' if self.tc else 'ntc'}"
 
     def case(self, t, seed=1):
-        return f"{self.descriptor(t)} body={t} seed={seed}"
+        extra = ""
+        if self.nm != DEFAULT_NAME or self.hyg:
+            extra += f" name={self.nm}"
+        if self.nest is not None:
+            extra += f" nest={self.nest}"
+        if self.live2 is not None:
+            extra += f" live2={self.live2}"
+        if self.env is not None:
+            extra += f" env={self.env}"
+        return f"{self.descriptor(t)} body={t} seed={seed}{extra}"
 
 
 def parse_case(line):
@@ -68,12 +96,21 @@ def parse_case(line):
     ret = toks[2] != "noret"
     tc = toks[3] == "tc"
     t, seed = None, 1
+    nm, nest, live2, hyg, env = DEFAULT_NAME, None, None, False, None
     for x in toks[4:]:
         if x.startswith("body="):
             t = int(x[5:])
         if x.startswith("seed="):
             seed = int(x[5:])
-    return Shape(caps, nargs, ret, tc), t, seed
+        if x.startswith("name="):
+            nm, hyg = x[5:], True
+        if x.startswith("nest="):
+            nest = x[5:]
+        if x.startswith("live2="):
+            live2 = x[6:]
+        if x.startswith("env="):
+            env = x[4:]
+    return Shape(caps, nargs, ret, tc, 0, nm, nest, live2, (False if env is not None else (hyg or None)), env), t, seed
 
 
 def all_shapes(max_caps):
@@ -121,6 +158,91 @@ def beyond_shapes(first_sid):
                 for ret in (True, False):
                     out.append(Shape(caps, nargs, ret, sid % 2 == 0, sid))
                     sid += 1
+    return out
+
+
+# ------------------------------------------------------------------------------------------------
+# name-resolution (hygiene) instances
+# ------------------------------------------------------------------------------------------------
+# The identifier given to rec_lambda! names a MACRO (`name!(..)`); it must not disturb anything the program calls `name` in
+# the value or type namespace. Every name below is also USED by the generated program under its ordinary meaning (see
+# `hyg_prologue` and PRELUDE): free functions of the program (`tr`, `mix1`), an imported std function (`min`), prelude
+# functions / constructors / types / traits, a type alias, a module, a const, a static, a tuple-struct constructor,
+# std macros used around the closure (`format`, `vec`), the macro `rec_lambda` itself, method names, locals of the
+# enclosing function (`f`, `out`) and of the body (`sh`, `x`, `a0v`), a raw identifier.
+GENERIC_NAMES = ["tr", "mix1", "min", "drop", "Some", "Ok", "Box", "Vec", "String", "Default", "Into", "Clone", "Acc", "md",
+                 "LIM", "Wrap", "STAT", "format", "vec", "rec_lambda", "wrapping_add", "len", "f", "out", "sh", "x", "a0v", "r#loop"]
+_POS_CAPS = [(False,), (True,), (False, True), (True, False), (True, False, True), (False, False, True, True)]
+
+
+def _sig_shape(name, k):
+    """The shape whose inner fn has exactly the signature of the like-named free function (no captures, i64 arguments),
+    so that a mis-resolved call still type-checks and shows as a difference in behaviour (body template 0)."""
+    return (), (2 if name == "min" else 1), name not in ("tr", "drop"), k % 2 == 1
+
+
+def hygiene_instances(first_sid, tier):
+    """[(Shape, template)]: recursion name equal to another name of the program (free fn, prelude name, type, module, const,
+    capture, argument, local, ...), nested rec_lambda!, two live closures used interleaved."""
+    out = []
+    sid = [first_sid]
+
+    def add(caps, nargs, ret, tc, t, **kw):
+        kw.setdefault("hyg", True)
+        out.append((Shape(caps, nargs, ret, tc, sid[0], **kw), t))
+        sid[0] += 1
+
+    thorough = tier == "thorough"
+    pats2 = [c for n in range(3) for c in itertools.product([False, True], repeat=n)]
+    # -- generic names
+    for k, name in enumerate(GENERIC_NAMES):
+        caps, nargs, ret, tc = _sig_shape(name, k)
+        add(caps, nargs, ret, tc, 0, nm=name)
+        if thorough:
+            for j, caps in enumerate(pats2):
+                for t in range(TEMPLATES):
+                    add(caps, 1 + (j + k + t) % 4, (j + t) % 2 == 0, (j + k) % 2 == 0, t, nm=name)
+        else:
+            add([(False, True), (True, False, True)][k % 2], 2 + k % 2, k % 4 < 2, k % 2 == 0, 1 + k % 3, nm=name)
+    # -- the recursion is called like one of its own captures / arguments
+    k = 0
+    pos_caps = [c for n in range(1, 4) for c in itertools.product([False, True], repeat=n)] + [_POS_CAPS[-1]] if thorough else _POS_CAPS
+    for caps in pos_caps:
+        for j in range(len(caps)):
+            for t in (range(TEMPLATES) if thorough else [k % TEMPLATES]):
+                add(caps, 1 + (j + k) % 3, k % 2 == 0, k % 3 == 0, t, nm=f"c{j}")
+            k += 1
+    for caps in [(), (True, False)] + ([(False,), (True, True, False)] if thorough else []):
+        for nargs in (1, 2, 4):
+            for j in sorted({0, nargs - 1}):
+                for t in (range(TEMPLATES) if thorough else [k % TEMPLATES]):
+                    add(caps, nargs, k % 2 == 1, k % 3 == 1, t, nm=f"a{j}")
+                k += 1
+    # -- nested: a second rec_lambda! built and used inside the body, under the same / another / a clashing name;
+    #    the third shape gives the outer and the inner hidden fn the same signature (body template 0)
+    nest_names = ("=", "inner", "c0", "a0", "nw", "b0", "tr", "mix1")
+    for si, (caps, nargs, ret) in enumerate([((), 1, True), ((False, True), 2, False), ((True,), 2, True), ((True, False, True), 3, True)]):
+        for nest in (nest_names if thorough or si == 2 else nest_names[:4]):
+            for t in (range(TEMPLATES) if thorough else [0 if si == 2 else k % TEMPLATES]):
+                nm = [DEFAULT_NAME, "c0", "tr", "a0"][k % 4] if nest != "=" else [DEFAULT_NAME, "mix1"][k % 2]
+                if nm == "c0" and not caps:
+                    nm = DEFAULT_NAME
+                add(caps, nargs, ret, k % 2 == 0, t, nm=nm, nest=nm if nest == "=" else nest)
+            k += 1
+    # -- two live closures, used interleaved, sharing the shared captures, under the same / different names
+    for caps, nargs in [((False,), 1), ((False, True), 2), ((True, False, False), 1), ((), 2)]:
+        for l2 in ("=", "other", "c0", "tr"):
+            for t in (range(TEMPLATES) if thorough else [k % TEMPLATES]):
+                nm = [DEFAULT_NAME, "mix1"][k % 2]
+                add(caps, nargs, k % 3 != 0, k % 2 == 1, t, nm=nm, live2=nm if l2 == "=" else l2)
+            k += 1
+    # -- the other direction: names the EXPANSION uses must not be captured by the program's definitions. The macro is invoked by
+    #    its absolute path in a scope that shadows the prelude, `std`/`core`, the std macros and the crate's macro names (plain body 0)
+    for caps in (pats2 + [(True, False, True)] if thorough else _POS_CAPS + [()]):
+        for nargs in ((1, 2, 3, 4) if thorough else (1 + k % 3,)):
+            for ret in ((True, False) if thorough else (k % 2 == 0,)):
+                add(caps, nargs, ret, k % 2 == 1, 0, hyg=False, env="hostile", nm=[DEFAULT_NAME, "rec_lambda", "drop", "std"][k % 4])
+                k += 1
     return out
 
 
@@ -264,7 +386,73 @@ def arg_next(t, k, variant):
     raise ValueError(ty)
 
 
-def body_lines(sh, t, call):
+def hyg_prologue(sh, t):
+    """Statements (the same in the rec_lambda! and in the explicit version) that use, under their ordinary meaning, every name
+    of GENERIC_NAMES that has one inside the body: free functions, an imported function, prelude functions, constructors
+    (also as patterns), types, traits, a type alias, a module, a const, a static, a tuple-struct constructor."""
+    label = [f"'{sh.nm}: loop {{ tr(7); break '{sh.nm}; }}"] if re.fullmatch(r"[A-Za-z_]\w*", sh.nm) else []   # a label called like the recursion
+    return label + [
+        f"let a0v: i64 = {arg_i64(t, 0)};",
+        "if a0v > 0 { tr(mix1(a0v - 1)); }",
+        "tr(min(a0v, 3));",
+        "let pz = Some(a0v); if let Some(q) = pz { tr(q); }",
+        "let rz: Result<i64, ()> = Ok(a0v ^ 1); if let Ok(q) = rz { tr(q); }",
+        "let bz: Box<i64> = Box::new(a0v); let vz: Vec<i64> = Vec::new(); let sz = String::new();",
+        "tr(*bz + vz.len() as i64 + sz.len() as i64);",
+        "drop(bz);",
+        "let dz: i64 = Default::default(); let iz: i64 = Into::into(a0v); tr(dz ^ Clone::clone(&iz));",
+        "let qz: Acc = md::idv(a0v).wrapping_add(LIM); let wz = Wrap(qz); tr(wz.0 + STAT);",
+    ]
+
+
+def nested_lines(sh, t, explicit):
+    """A second recursive closure built, used twice (the first result is fed back) and dropped INSIDE the body, before the
+    outer recursive calls; it captures a local of the outer body mutably. It never calls the outer recursion."""
+    n = sh.nest
+    L = [f"let mut nw: i64 = {arg_i64(t, 0)};", "let n0 = nw & 3;", "let nz = {"]
+    inner = ["tr(b0);", "*nw = nw.wrapping_mul(5).wrapping_add(b1);"]
+    if explicit:
+        L.append("    fn ngo(b0: i64, b1: i64, nw: &mut i64) -> i64 {")
+        L += ["        " + x for x in inner]
+        L.append("        if b0 <= 0 { b1 } else { ngo(b0 - 1, b1.wrapping_add(*nw), nw) }")
+        L.append("    }")
+        L.append("    let n1 = ngo(n0, 1, &mut nw);")
+        L.append("    ngo(n1 & 1, n1, &mut nw)")
+    else:
+        L.append(f"    let mut nh = rec_lambda!({n}, |nw: &mut i64| {{")
+        L.append("        |b0: i64, b1: i64| -> i64 {")
+        L += ["            " + x for x in inner]
+        L.append(f"            if b0 <= 0 {{ b1 }} else {{ {n}!(b0 - 1, b1.wrapping_add(*nw)) }}")
+        L.append("        }")
+        L.append("    });")
+        L.append("    let n1 = nh(n0, 1);")
+        L.append("    nh(n1 & 1, n1)")
+    L.append("};")
+    L += ["tr(nz);", "tr(nw);"]
+    return L
+
+
+def rec_call_sites(sh, t):
+    """Number of recursive call sites of the body that are not nested in the argument list of another one (what the reader of
+    the expansion counts): three, plus - hygiene instances of body 0 with a return type - the nested call moved into a `let`."""
+    return 4 if (sh.hyg and sh.ret and t == 0) else 3
+
+
+def value_names(sh, t):
+    """(locals, uses): the `let`s of the body and the identifiers the body uses as VALUES (input of the driver's `names` line)."""
+    locals_ = ["sh", "x", "y"] + (["z0", "kf", "z"] if rec_call_sites(sh, t) == 4 else [])
+    uses = ["tr"] + [f"c{i}" for i in range(len(sh.caps))] + [f"a{k}" for k in range(sh.nargs)]
+    if t == 3 and sh.muts() and sh.muts()[0] % 2 == 0:
+        uses.append("bump")
+    if sh.hyg:
+        locals_ += ["a0v", "pz", "rz", "bz", "vz", "sz", "dz", "iz", "qz", "wz", "q"]
+        uses += ["mix1", "min", "Some", "Ok", "drop", "LIM", "STAT", "Wrap"]
+    if sh.nest is not None:
+        locals_ += ["nw", "n0", "nz"]
+    return locals_, uses + locals_
+
+
+def body_lines(sh, t, call, explicit=False):
     """The body of the recursive closure; `call(list of exprs)` renders one recursive call."""
     L = []
     for k in range(sh.nargs):
@@ -275,6 +463,10 @@ def body_lines(sh, t, call):
     for i in sh.muts():                      # mutable captures are read, then updated
         L.append(f"tr({cap_read(t, i)});")
         L += cap_write(t, i, f"({arg_i64(t, 0)} ^ sh)", i + 1)
+    if sh.hyg:
+        L += hyg_prologue(sh, t)
+    if sh.nest is not None:
+        L += nested_lines(sh, t, explicit)
     ex1 = [arg_next(t, k, 1) for k in range(sh.nargs)]
     ex2 = [arg_next(t, k, 2) for k in range(sh.nargs)]
     if t == 3:
@@ -288,8 +480,16 @@ def body_lines(sh, t, call):
             mut_expr = [f"bump(c{m1})", f"c{m1}.pop().unwrap_or(3)"][m1 % 2]
             ex1[0] = f"a0 - 1 - ({mut_expr} & 0)"
             ex2[0] = f"a0 - 2 + ({cap_read(t, m2)} & 0)"
+    if sh.hyg and sh.ret and t in (0, 3):
+        # a recursive call nested inside an argument expression of another recursive call
+        inner = list(ex1)
+        inner[0] = "a0 - 2"
+        ex2[0] = f"{ex2[0]} + ({call(inner)} & 0)"
     rec1 = call(ex1)
     rec2 = call(ex2)
+    if sh.hyg and sh.ret and t == 0:
+        # a call site inside an ordinary closure of the body (which captures the inner fn's parameters the call appends)
+        rec2 = f"{{ let z0 = {ex2[0]}; let mut kf = |z: i64| {call(['z'] + ex2[1:])}; kf(z0) }}"
     last = arg_i64(t, sh.nargs - 1)
 
     def after(v):
@@ -334,10 +534,43 @@ def body_lines(sh, t, call):
     return L
 
 
+def live2_parts(sh, t):
+    """The second closure of a `live2` instance: alive next to the first one, called after each of its calls; it shares the
+    SHARED captures of the shape with the first closure and has one mutable capture `e0` of its own.
+    Returns (lines building it with rec_lambda!, lines of the explicit fn `go2`, explicit call as a function of the literal)."""
+    n2 = sh.live2
+    sh_caps = sh.shared()
+    a_ty = arg_ty(t, 0)
+    a0 = arg_i64(t, 0)
+    zero = "a0 == 0" if a_ty == "usize" else "a0 <= 0"
+    reads = "0i64" + "".join(f".wrapping_add({cap_read(t, i)})" for i in sh_caps)
+
+    def body(call):
+        return ["tr(" + a0 + ");", f"*e0 = e0.wrapping_mul(3).wrapping_add({reads});",
+                f"if {zero} {{ *e0 }} else {{ {call('a0 - 1')} ^ {a0} }}"]
+
+    cap_list = ", ".join([f"c{i}: &{cap_ty(t, i)}" for i in sh_caps] + ["e0: &mut i64"])
+    g = [f"let mut h2 = rec_lambda!({n2}, |{cap_list}| {{", f"    |a0: {a_ty}| -> i64 {{"]
+    g += ["        " + x for x in body(lambda x: f"{n2}!({x}{',' if not sh.tc else ''})")]     # the other call syntax
+    g += ["    }", "});"]
+    e = ["fn go2(" + ", ".join([f"a0: {a_ty}"] + [f"c{i}: &{cap_ty(t, i)}" for i in sh_caps] + ["e0: &mut i64"]) + ") -> i64 {"]
+    e += ["    " + x for x in body(lambda x: "go2(" + ", ".join([x] + [f"c{i}" for i in sh_caps] + ["e0"]) + ")")]
+    e.append("}")
+    e_call = lambda lit: "go2(" + ", ".join([lit] + [f"&c{i}" for i in sh_caps] + ["&mut e0"]) + ")"   # noqa: E731
+    return g, e, e_call
+
+
 def gen_pair(sh, t, seed=1):
     """Source text of g_<sid>_<t> and e_<sid>_<t>."""
     caps = list(enumerate(sh.caps))
     n = sh.nargs
+    rn = sh.nm
+    hostile = sh.env == "hostile"
+    if hostile and (t != 0 or sh.hyg or sh.live2 is not None or sh.nest is not None):
+        raise ValueError("env=hostile is for the plain body template 0 only")
+    macro_path = "::rlib_lambda::rec_lambda" if hostile else "rec_lambda"
+    blk_open = (["    let (r0, r1, r2) = {"] + ["        " + x for x in HOSTILE_ITEMS.strip().split("\n")]) if hostile else ["    {"]
+    blk_close = ["    };", '    out += &format!("{:?};{:?};{:?};", r0, r1, r2);'] if hostile else ["    }"]
     args_decl = ", ".join(f"a{k}: {arg_ty(t, k)}" for k in range(n))
     ret = f" -> {RET_TY[t]}" if sh.ret else ""
     decl = []
@@ -348,46 +581,70 @@ def gen_pair(sh, t, seed=1):
     bufs = [k for k in range(n) if arg_ty(t, k) == "&mut Vec<i64>"]
     for k in bufs:
         decl.append(f"    let mut ob{k}: Vec<i64> = Vec::new();")
+    if sh.live2 is not None:
+        decl.append("    let mut e0: i64 = 1;")
+        final += '    out += &format!("e0={:?};", e0);\n'
+        l2_g, l2_e, l2_ecall = live2_parts(sh, t)
 
-    def calls(fn_call):
+    def calls(fn_call, h_call=None):
+        """fn_call(call number, actual arguments) renders one call of the closure / of the explicit fn; h_call(literal) one call
+        of the second live closure (after each call of the first)."""
         s = ""
-        for inp in call_inputs(t, seed, sh):
-            if t != 3:
-                s += f'        let r = {fn_call(inp[:n])};\n        out += &format!("{{:?}};", r);\n'
-                continue
-            # every call in a scope of its own with fresh referents for the `&` arguments and a fresh `&mut` borrow of the buffers
-            s += "        {\n"
-            actual = []
-            for k in range(n):
-                ty = arg_ty(t, k)
-                if ty == "&mut Vec<i64>":
-                    actual.append(f"&mut ob{k}")
-                elif ty == "&[i64]":
-                    s += f"            let d{k}: Vec<i64> = {inp[k]};\n"
-                    actual.append(f"&d{k}[..]")
-                elif ty == "&i64":
-                    s += f"            let s{k}: i64 = {inp[k]};\n"
-                    actual.append(f"&s{k}")
-                else:
-                    actual.append(inp[k])
-            s += f'            let r = {fn_call(actual)};\n            out += &format!("{{:?}};", r);\n        }}\n'
-            for k in bufs:          # the buffer is read between two uses of the closure
-                s += f'        out += &format!("ob{k}={{:?}};", ob{k});\n'
+        for ci, inp in enumerate(call_inputs(t, seed, sh)):
+            if hostile:
+                s += f'        let r{ci} = {fn_call(ci, inp[:n])};\n'
+            elif t != 3:
+                s += f'        let r = {fn_call(ci, inp[:n])};\n        out += &format!("{{:?}};", r);\n'
+            else:
+                # every call in a scope of its own with fresh referents for the `&` arguments and a fresh `&mut` borrow of the buffers
+                s += "        {\n"
+                actual = []
+                for k in range(n):
+                    ty = arg_ty(t, k)
+                    if ty == "&mut Vec<i64>":
+                        actual.append(f"&mut ob{k}")
+                    elif ty == "&[i64]":
+                        s += f"            let d{k}: Vec<i64> = {inp[k]};\n"
+                        actual.append(f"&d{k}[..]")
+                    elif ty == "&i64":
+                        s += f"            let s{k}: i64 = {inp[k]};\n"
+                        actual.append(f"&s{k}")
+                    else:
+                        actual.append(inp[k])
+                s += f'            let r = {fn_call(ci, actual)};\n            out += &format!("{{:?}};", r);\n        }}\n'
+                for k in bufs:          # the buffer is read between two uses of the closure
+                    s += f'        out += &format!("ob{k}={{:?}};", ob{k});\n'
+            if h_call is not None:
+                s += f'        let q = {h_call(["2", "1", "3"][ci % 3])};\n        out += &format!("h{{:?}};", q);\n'
+        if hostile:
+            s += "        (r0, r1, r2)\n"
         return s
 
     # ---- generated version
+    # without a mutable capture the closure is bound immutably (it must be `Fn`), copied (it must be `Copy`: both copies are
+    # used afterwards) and its second call goes through a shared reference; with one it is `FnMut`: second call through `&mut f`
+    has_mut = bool(sh.muts())
     cap_list = ", ".join(f"c{i}: &{'mut ' if m else ''}{cap_ty(t, i)}" for i, m in caps)
-    g_call = lambda ex: "go!(" + ", ".join(ex) + ("," if sh.tc else "") + ")"   # noqa: E731
+    g_call = lambda ex: f"{rn}!(" + ", ".join(ex) + ("," if sh.tc else "") + ")"   # noqa: E731
     gb = body_lines(sh, t, g_call)
     g = [f"pub fn g_{sh.sid}_{t}() -> String {{", "    let mut out = String::new();", "    tr_reset();"] + decl
-    g.append("    {")
-    g.append(f"        let mut f = rec_lambda!(go, |{cap_list}| {{")
+    g += blk_open
+    g.append(f"        let {'mut ' if has_mut else ''}f = {macro_path}!({rn}, |{cap_list}| {{")
     g.append(f"            |{args_decl}|{ret} {{")
     g += ["                " + s for s in gb]
     g.append("            }")
     g.append("        });")
-    g.append(calls(lambda inp: "f(" + ", ".join(inp) + ")").rstrip("\n"))
-    g.append("    }")
+    if not has_mut:
+        g.append("        let f2 = f;")
+    if sh.live2 is not None:
+        g += ["        " + x for x in l2_g]
+
+    def g_fn_call(ci, inp):
+        callee = "f" if ci != 1 else ("(&mut f)" if has_mut else "(&f2)")
+        return callee + "(" + ", ".join(inp) + ")"
+
+    g.append(calls(g_fn_call, (lambda lit: f"h2({lit})") if sh.live2 is not None else None).rstrip("\n"))
+    g += blk_close
     g.append(final.rstrip("\n")) if final else None
     g.append('    out += &format!("t={}", tr_get());')
     g.append("    out")
@@ -395,14 +652,19 @@ def gen_pair(sh, t, seed=1):
     # ---- explicit version: captures passed in DECLARED order
     e_params = ", ".join([f"a{k}: {arg_ty(t, k)}" for k in range(n)] + [f"c{i}: &{'mut ' if m else ''}{cap_ty(t, i)}" for i, m in caps])
     e_call = lambda ex: "go(" + ", ".join(list(ex) + [f"c{i}" for i, _ in caps]) + ")"   # noqa: E731
-    eb = body_lines(sh, t, e_call)
+    eb = body_lines(sh, t, e_call, explicit=True)
     e = [f"pub fn e_{sh.sid}_{t}() -> String {{", "    let mut out = String::new();", "    tr_reset();"] + decl
-    e.append(f"    fn go({e_params}){ret} {{")
-    e += ["        " + s for s in eb]
-    e.append("    }")
-    e.append("    {")
-    e.append(calls(lambda inp: "go(" + ", ".join(list(inp) + [f"&{'mut ' if m else ''}c{i}" for i, m in caps]) + ")").rstrip("\n"))
-    e.append("    }")
+    e_fn = [f"    fn go({e_params}){ret} {{"] + ["        " + s for s in eb] + ["    }"]
+    if hostile:                     # the explicit fn lives in the same hostile scope
+        e += blk_open + ["    " + x for x in e_fn]
+    else:
+        e += e_fn
+        if sh.live2 is not None:
+            e += ["    " + x for x in l2_e]
+        e += blk_open
+    e.append(calls(lambda ci, inp: "go(" + ", ".join(list(inp) + [f"&{'mut ' if m else ''}c{i}" for i, m in caps]) + ")",
+                   l2_ecall if sh.live2 is not None else None).rstrip("\n"))
+    e += blk_close
     e.append(final.rstrip("\n")) if final else None
     e.append('    out += &format!("t={}", tr_get());')
     e.append("    out")
@@ -410,7 +672,7 @@ def gen_pair(sh, t, seed=1):
     return "\n".join(x for x in g if x is not None), "\n".join(x for x in e if x is not None)
 
 
-PRELUDE = """#![allow(unused, unused_mut, unused_parens, clippy::all)]
+PRELUDE = """#![allow(unused, unused_mut, unused_parens, non_snake_case, non_camel_case_types, non_upper_case_globals, clippy::all)]
 // GENERATED by /verif/tools/c20_gen.py — do not edit.
 use rlib_lambda::rec_lambda;
 use std::cell::Cell;
@@ -420,7 +682,29 @@ fn tr(x: i64) { TR.with(|t| t.set((t.get() ^ (x as u64)).wrapping_mul(0x10000000
 fn tr_reset() { TR.with(|t| t.set(0xcbf29ce484222325)); }
 fn tr_get() -> u64 { TR.with(|t| t.get()) }
 fn bump(c: &mut i64) -> i64 { *c = c.wrapping_mul(3).wrapping_add(1); *c }
+// names used by the name-resolution (hygiene) instances under their ordinary meaning
+use std::cmp::min;
+fn mix1(x: i64) -> i64 { x.wrapping_mul(x) % 7 + 1 }
+type Acc = i64;
+mod md { pub fn idv(x: i64) -> i64 { x ^ 5 } }
+const LIM: i64 = 3;
+static STAT: i64 = 2;
+struct Wrap(i64);
 """
+
+
+# Definitions that shadow, inside one block, what an expansion might be tempted to refer to by a plain name: prelude types,
+# constructors, functions and traits, the crates `std`/`core`/`alloc`/`rlib_lambda`, std macros, and the macros of rlib_lambda.
+_HOSTILE_MACROS = ["vec", "format", "panic", "assert", "assert_eq", "assert_ne", "debug_assert", "debug_assert_eq", "unreachable",
+                   "unimplemented", "todo", "println", "eprintln", "print", "write", "writeln", "matches", "stringify", "concat",
+                   "line", "column", "file", "module_path", "dbg", "rec_lambda", "_rec_lambda_0_", "_rec_lambda_1_", "_rec_lambda_2_"]
+HOSTILE_ITEMS = """struct Some; struct None; struct Ok; struct Err; struct Option; struct Result; struct Box; struct Vec; struct String;
+struct Rc; struct Cell; struct RefCell; struct PhantomData;
+fn drop(x: i64) -> i64 { x } fn swap(x: i64) -> i64 { x } fn take(x: i64) -> i64 { x } fn replace(x: i64) -> i64 { x }
+trait Fn {} trait FnMut {} trait FnOnce {} trait Clone {} trait Copy {} trait Default {} trait Into {} trait From {} trait Iterator {}
+trait IntoIterator {} trait Sized {} trait Send {} trait Sync {} trait Drop {} trait AsRef {} trait ToOwned {} trait ToString {}
+mod std {} mod core {} mod alloc {} mod rlib_lambda {}
+""" + "".join(f'macro_rules! {m} {{ ($($t:tt)*) => {{ compile_error!("`{m}!` is shadowed in this scope") }} }}\n' for m in _HOSTILE_MACROS)
 
 
 RUNNER_MAIN_HEAD = """// GENERATED by /verif/tools/c20_gen.py
@@ -668,7 +952,7 @@ def wiring_of_expansion(blocks, sid, t):
     if blk is None:
         return None, f"function g_{sid}_{t} not found in the expansion"
     # drop the (unexpanded) definition of the local macro; it is printed inside the inner fn
-    blk = re.sub(r"macro_rules!\s*\w+\s*\{.*?\n\s*\}\n", "\n", blk, count=1, flags=re.S) if "macro_rules!" in blk else blk
+    blk = re.sub(r"macro_rules!\s*(?:r#)?\w+\s*\{.*?\n\s*\}\n", "\n", blk, count=1, flags=re.S) if "macro_rules!" in blk else blk
     # the inner fn is found structurally (the first fn item nested in g_<sid>_<t>), whatever the macro calls it
     d = re.search(r"\bfn\s+([A-Za-z_]\w*)\s*\(", blk)
     if not d:
@@ -721,6 +1005,18 @@ def wiring_of_expansion(blocks, sid, t):
     rec_tails = sorted({",".join(a[len(a) - ncap:] if ncap else []) for _, a in calls[:-1]})
     wiring = f"fn({','.join(plist)})->{ret} rec(%s) clo({','.join(cparams)};{','.join(cargs)};{','.join(ctail)})"
     return (wiring, rec_tails, [len(a) for _, a in calls[:-1]], inner), None
+
+
+def expansion_items(blocks, sid, t):
+    """Items (keyword, name) the expanded text of fn g_<sid>_<t> declares, the local macro's definition aside. For a plain
+    instance (the generator writes no item into g_*) these are the items the EXPANSION introduces into the user's block: the
+    model says exactly one, the hidden fn - every further item with a fixed name can capture a like-named name of the user."""
+    blk = blocks.get(("g", sid, t))
+    if blk is None:
+        return None
+    blk = re.sub(r"macro_rules!\s*(?:r#)?\w+\s*\{.*?\n\s*\}\n", "\n", blk, flags=re.S)
+    return [(m.group(1), m.group(2)) for m in re.finditer(
+        r"^\s*(?:pub(?:\([a-z]+\))?\s+)?(?:unsafe\s+)?(fn|struct|enum|union|type|const|static|mod|trait|impl|use|extern)\b\s*([A-Za-z_]\w*)?", blk, flags=re.M)]
 
 
 # ------------------------------------------------------------------------------------------------
